@@ -32,8 +32,8 @@ META = {
 RULE = (
     "all (operator form, parameters, source list) triples: source lists = every tuple of <=L timelines from the structural set "
     "(sync/async, empty, terminal C/E/never, terminal with last element), counts 0..3 and None cut by take(1..3), both ways of "
-    "passing the scheduler in the thorough tier; non-trivial = the execution opened >=2 source subscriptions (a hand-over from one "
-    "source to the next took place); distinct = (operator form, parameters, timelines)"
+    "passing the scheduler in the thorough tier; non-trivial = by the reference >=2 source subscriptions are opened (a hand-over from one "
+    "source to the next takes place); distinct = (operator form, parameters, timelines)"
 )
 BUDGET = {"quick": 120.0, "thorough": 1200.0}
 
@@ -273,8 +273,7 @@ def key_of(case):
 
 
 def run_case(case):
-    problems, ob, stats = seqref.judge(case, build, model, extra=no_overlap)
-    return problems, ob
+    return seqref.judge(case, build, model, extra=no_overlap)
 
 
 def shard(part: core.Part, shard_i, nshards, tier, seed, deadline):
@@ -282,8 +281,8 @@ def shard(part: core.Part, shard_i, nshards, tier, seed, deadline):
         if part.evals % 128 == 0 and time.time() > deadline:
             part.complete = False
             return
-        problems, ob = run_case(case)
-        nontrivial = len(ob.subs) >= 2
+        problems, ob, stats = run_case(case)
+        nontrivial = len(stats["witness"].sublog) >= 2
         part.case(key_of(case), nontrivial, outcome=seqref.outcome_of(ob),
                   sample={"op": case["op"], "params": case["params"], "sources": case["sources"], "take": case.get("take"),
                           "observed": seqref.show_out(ob.out), "subscriptions": seqref.show_subs(ob.subs)})
@@ -313,7 +312,7 @@ def run(ctx: core.Ctx):
 def replay(case):
     case = dict(case)
     case["sources"] = {n: [k, [tuple(x) for x in tl]] for n, (k, tl) in case["sources"].items()}
-    problems, ob = run_case(case)
+    problems, ob, stats = run_case(case)
     print("case:", case["op"], case["params"], "take=", case.get("take"), "sources=", case["sources"])
     print("observed output:", seqref.show_out(ob.out))
     print("observed subscriptions:", seqref.show_subs(ob.subs))
